@@ -142,6 +142,16 @@ impl PartitionReplicatorActor {
             return;
         }
 
+        // verification harness: catch-up of this replicator only when the schedule says so
+        #[cfg(sierra_db_sierradb_verif)]
+        if sierradb::verif::query(
+            "rep.catchup.allow",
+            partition_ref.id().sequence_id() + 1,
+        ) == 0
+        {
+            return;
+        }
+
         // Look for the oldest buffered write to detect gaps
         if let Some((&oldest_buffered_seq, oldest_write)) =
             self.buffered_writes.queue.map.first_key_value()
@@ -185,6 +195,11 @@ impl PartitionReplicatorActor {
     ) {
         // Mark the range as being caught up
         self.catching_up = true;
+        #[cfg(sierra_db_sierradb_verif)]
+        sierradb::verif::point(
+            "rep.catchup.start",
+            &[("from", from_seq), ("to", to_seq)],
+        );
 
         let partition_id = self.partition_id;
         debug!(
@@ -671,6 +686,8 @@ impl Message<PartitionSyncResponse> for PartitionReplicatorActor {
                         Err(err) => {
                             error!("partition sync append events failed: {err}");
                             self.buffered_writes.update_timeout();
+                            #[cfg(sierra_db_sierradb_verif)]
+                            sierradb::verif::point("rep.catchup.done", &[("ok", 0)]);
                             return;
                         }
                     }
@@ -679,6 +696,8 @@ impl Message<PartitionSyncResponse> for PartitionReplicatorActor {
             Err(err) => {
                 error!("partition sync failed: {err}");
                 self.buffered_writes.update_timeout();
+                #[cfg(sierra_db_sierradb_verif)]
+                sierradb::verif::point("rep.catchup.done", &[("ok", 0)]);
                 return;
             }
         }
@@ -691,6 +710,8 @@ impl Message<PartitionSyncResponse> for PartitionReplicatorActor {
         }
 
         self.buffered_writes.update_timeout();
+        #[cfg(sierra_db_sierradb_verif)]
+        sierradb::verif::point("rep.catchup.done", &[("ok", 1)]);
     }
 }
 
